@@ -199,6 +199,10 @@ def plan(rng, quick):
     for runs in ("rle", "bp", "mix"):
         out.append(("rle_bool", TYPES[0], {"bool_runs": runs, "v2": False}))
         out.append(("rle_bool", TYPES[0], {"bool_runs": runs, "v2": True}))
+    for codec in ("SNAPPY", "ZSTD", "GZIP"):                  # a dictionary page exactly as long as the data page behind it, compressed
+        out.append(("dict", [x for x in TYPES if x[0] == "int32"][0], {"dict_match_page": True, "codec": codec, "v2": False}))
+    for codec in ("SNAPPY", "ZSTD"):                          # long, very compressible RLE-boolean pages of MANY runs under v2
+        out.append(("rle_bool", TYPES[0], {"bool_runs": "bp", "v2": True, "n_rows": 3000, "bool_pattern": "alt", "codec": codec}))
     for t in [x for x in TYPES if x[0] in ("double", "int64", "utf8", "int32")]:
         for v2 in (False, True):                              # a page of nulls only BETWEEN pages with values
             out.append(("plain", t, {"v2": v2, "null_page_mid": True}))
@@ -215,7 +219,13 @@ def gen_file(rng, idx, fam, t, forced):
     n = NS[idx % len(NS)] if rng.random() < 0.5 else rng.choice(NS)
     if forced.get("index_width", 1) == 0 or "delta_width" in forced or "index_width" in forced:
         n = max(n, rng.choice([1, 9, 40]))
+    if forced.get("n_rows"):
+        n = forced["n_rows"]
+    if forced.get("dict_match_page"):
+        n = 65                               # 65 runs of one value each: 1 + 3*65 = 196 bytes = 49 INT32 entries
     optional = rng.random() < 0.6
+    if forced.get("bool_pattern") or forced.get("dict_match_page"):
+        optional = False
     small = rng.random() < 0.6
     pat = rng.choice(["none", "some", "all", "first", "last", "alt"]) if optional else "none"
     if ("index_width" in forced or "delta_width" in forced) and pat == "all":
@@ -262,6 +272,10 @@ def gen_file(rng, idx, fam, t, forced):
             cells.append(pool[r])
         elif pool is not None:
             cells.append(pool[r % len(pool)] if forced.get("dict_fill") and r < len(pool) else rng.choice(pool))
+        elif forced.get("bool_pattern") == "alt":
+            cells.append(r % 2)
+        elif forced.get("dict_match_page"):
+            cells.append(1000 + (r % 7) * 3)
         else:
             cells.append(gen_value(rng, tname, small))
     md = 1 if optional else 0
@@ -301,6 +315,15 @@ def gen_file(rng, idx, fam, t, forced):
     if forced.get("dict_fill") == "most":
         rgs = [(0, n)]                      # one dictionary holding all k entries
         ch.pop("fallback_after", None)
+    if forced.get("dict_match_page"):
+        ch.update({"dict": True, "dict_data_enc": 8, "dict_page_enc": 0, "index_runs": "rle", "index_width": 16, "dict_shuffle": False,
+                   "dict_match_first_page": True, "v2": False})
+        ch.pop("fallback_after", None)
+    if forced.get("codec"):
+        ch["codec"] = forced["codec"]
+        ch["v2_compressed"] = True
+        ch["page_bounds"] = []
+        rgs = [(0, n)]
     choices = {"cols": [{"codec": "UNCOMPRESSED"}, ch]}
     return [rid, col], rgs, choices, {name: (tname, cells), "rid": ("int64", list(range(n)))}, n, pat
 
